@@ -8,6 +8,8 @@ text replacement); a .diff is applied with `git apply`.
 """
 import json, os, shutil, subprocess, sys, tempfile, time
 
+ROOT = os.path.dirname(os.path.dirname(os.path.abspath(__file__)))
+
 def make_scratch(mut):
     s = tempfile.mkdtemp(prefix="vpmut.", dir="/tmp")
     repo = os.path.join(s, "repo")
@@ -46,7 +48,7 @@ def main():
             if os.environ.get("EXAMPLES"):
                 cmd += ["--examples", os.environ["EXAMPLES"]]
             t0 = time.time()
-            r = subprocess.run(cmd, cwd="/verif", env=env, capture_output=True, text=True)
+            r = subprocess.run(cmd, cwd=ROOT, env=env, capture_output=True, text=True)
             lines = (r.stdout + r.stderr).split("\n")
             first = next((l for l in lines if l.startswith(("VIOLATION", "HARNESS-ERROR"))), "")
             kind = next((l for l in lines if ": " in l and not l.startswith((" ", "VIOLATION", "KNOWN", "WARNING", "C"))), "")[:200]
@@ -56,7 +58,6 @@ def main():
             rcs.append(r.returncode)
     finally:
         shutil.rmtree(s, ignore_errors=True)
-        shutil.rmtree("/verif/replays/new", ignore_errors=True)
     sys.exit(0 if all(rc == 1 for rc in rcs) else 3)
 
 main()
